@@ -709,48 +709,64 @@ func (e *engine) judge(p probe, want func() string) *failure {
 		rel |= fDollar
 	}
 	mask &= rel
+	explains := func(fl flagset) bool {
+		m := e.machine(fl)
+		switch p.kind {
+		case 'S':
+			ok, v := m.subscribersV(p.arg, p.pq)
+			return ok != got.err && (got.err || sameVents(v, got.subs))
+		case 'R':
+			ok, v := m.retainedV(p.arg)
+			return ok != got.err && (got.err || sameMsgs(v, got.msgs))
+		}
+		return m.last == got.ret
+	}
+	// A set of flags is known when it is listed itself or each of its
+	// interacting defects is listed.
+	knownParts := func(fl flagset) []string {
+		if e.known == nil {
+			return nil
+		}
+		sig := fl.String()
+		if e.known(sig) {
+			return []string{sig}
+		}
+		parts := strings.Split(sig, "+")
+		for _, s := range parts {
+			if !e.known(s) {
+				return nil
+			}
+		}
+		return parts
+	}
 	sig := "-"
 	if got.bad == "" {
+		// first the explanations made of listed findings only (smallest first):
+		// an observation that a listed finding explains completely is excluded
+		// even if an unlisted (e.g. repaired) variant would predict it too
 		for _, fl := range variants {
 			if fl&^mask != 0 {
 				continue
 			}
-			m := e.machine(fl)
-			same := false
-			switch p.kind {
-			case 'S':
-				ok, v := m.subscribersV(p.arg, p.pq)
-				same = ok != got.err && (got.err || sameVents(v, got.subs))
-			case 'R':
-				ok, v := m.retainedV(p.arg)
-				same = ok != got.err && (got.err || sameMsgs(v, got.msgs))
-			default:
-				same = m.last == got.ret
+			if parts := knownParts(fl); parts != nil && explains(fl) {
+				if e.hits == nil {
+					e.hits = map[string]int{}
+				}
+				for _, s := range parts {
+					e.hits[s]++
+				}
+				return nil
 			}
-			if same {
+		}
+		// otherwise name the smallest variant that explains it (diagnostic only)
+		for _, fl := range variants {
+			if fl&^mask != 0 {
+				continue
+			}
+			if explains(fl) {
 				sig = fl.String()
 				break
 			}
-		}
-	}
-	if sig != "-" && e.known != nil {
-		// A combination is also known when each interacting defect is listed.
-		parts := []string{sig}
-		if !e.known(sig) {
-			parts = strings.Split(sig, "+")
-		}
-		all := true
-		for _, s := range parts {
-			all = all && e.known(s)
-		}
-		if all {
-			if e.hits == nil {
-				e.hits = map[string]int{}
-			}
-			for _, s := range parts {
-				e.hits[s]++
-			}
-			return nil
 		}
 	}
 	f := &failure{Sig: sig, Op: len(e.ops) - 1, Probe: p.String(), Library: got.text(p.kind), Spec: want()}
